@@ -251,11 +251,20 @@ def prove(ctx, extra_modules=()):
 HARNESS = os.path.join(VERIF, "harness")
 
 
+def harness_packages():
+    """harness/<dir>/PKG names the /repo package the directory's files are injected into."""
+    res = {}
+    for d in sorted(os.listdir(HARNESS)):
+        pk = os.path.join(HARNESS, d, "PKG")
+        if os.path.exists(pk):
+            res[d] = open(pk).read().strip()
+    return res
+
+
 def overlay_file(ctx):
     """overlay.json mapping every /verif/harness/<pkgdir>/zz_verif_*.go into /repo/<pkg path>."""
     rep = {}
-    pkgmap = json.load(open(os.path.join(HARNESS, "packages.json")))
-    for d, pkg in pkgmap.items():
+    for d, pkg in harness_packages().items():
         hd = os.path.join(HARNESS, d)
         for f in sorted(os.listdir(hd)):
             if f.endswith(".go"):
